@@ -38,6 +38,13 @@ STRENGTHENED = {
     "C08-r2": "no harness changed a concurrency limit at run time; added c08_dynamic_limit; the pipeline oracle also stopped accepting worker-side rejections, which exposed a genuine double-poll defect of the pinned tree (fixed: 5c5d251); the change was then ported onto the repaired driver (patch_ported.diff, demo_ported.py)",
     "C11-r2": "the leader handled the AppendEntries response before anything else could happen; added a client submit while the round trip is in flight",
     "C12-r2": "the acceptor lemma assumed 'promised >= accepted' of its pre-state but never asserted it of the post-state; the invariant is now checked for inductiveness",
+    "C03-r2": "no harness looked for state shared between sketch instances; added c03_sketch_isolation (private module copy as the fresh-interpreter reference) and kept repo-defined lru caches live under CrossHair, which bypasses them by default",
+    "C04-r2": "reset was only exercised with handlers that leave event metadata alone; added c04_reset_context (in-place mutation, shared or copied context) - whose nested-value cubes exposed a known finding on the unchanged tree",
+    "C05-r2": "every pre-scheduled event was a primary event; daemon flags are now symbolic (a finite end_time delivers daemon events in both modes)",
+    "C07-r2": "GarbageCollector was not among the C07 scenarios; added c07_gc_cycle with solver-chosen pauses around the collection interval",
+    "C09-r2": "PreemptibleResource was not covered; added c09_preemptible_script - which exposed a genuine defect on the unchanged tree (fixed: 9dcb6fb); the change was then ported onto the repaired acquire() (patch_ported.diff)",
+    "C18-r2": "three replicas appeared only in the thorough tier and with 4 operations; added c18_orset3 (every 5-step history on 3 replicas, merge laws on the reached states)",
+    "C20-r2": "merge results were compared but the merge argument was never looked at again; merges must now leave their argument unchanged",
     "C18": "HLC was always started from a fresh clock; now its initial (physical, logical) state is symbolic",
 }
 out = ["# Seeded regressions: what the checks catch", "",
